@@ -32,6 +32,7 @@ type c10cfg struct {
 	ctx                string         // none expired 5ms 3s 10s
 	ignoreCtx, ctxLike bool
 	expiry             time.Duration // StoreConfig.ExpiryAge (declared secrets never expire, however old the cache's stamps)
+	latency            time.Duration // every request takes this long before it is answered (and gives up when its context ends first)
 	failKind           string        // "" | denied | notfound: what the scripted failures say (grants and secrets may arrive while a program starts)
 	customTicker       bool          // StoreConfig.PollTicker is set (to a ticker that never fires): start-up retries must not depend on it
 }
@@ -49,6 +50,9 @@ func (c c10cfg) String() string {
 	}
 	if c.failKind != "" {
 		ex += " failures-say=" + c.failKind
+	}
+	if c.latency > 0 {
+		ex += fmt.Sprintf(" every-request-takes=%v", c.latency)
 	}
 	if c.expiry > 0 {
 		ex = fmt.Sprintf(" expiry-age=%v", c.expiry)
@@ -104,6 +108,7 @@ func runC10(t *testing.T, c c10cfg) (out c10out) {
 		svc.now = func() time.Duration { return time.Since(start) }
 		svc.IgnoreCtx, svc.CtxLikeErr, svc.MaxReqs = c.ignoreCtx, c.ctxLike, 400
 		svc.FailKind = c.failKind
+		svc.Latency = c.latency
 		uniq := map[string]bool{}
 		for _, n := range c.names {
 			uniq[n] = true
@@ -389,7 +394,7 @@ func checkC10(t *testing.T, env *report.Env, rep *report.Report) {
 		"service scripts per secret: success after k failures for k in {0,1,2,3,12,13,14}, or failure forever; failures are plain errors or look like timeouts that are not the caller's; the service either honours the caller's context or keeps answering from its script after it ended",
 	}
 	sec := rep.Add(&report.Section{Name: "construction-all-configurations", Engine: "enum", Exhaustive: true, Extra: map[string]int64{}, Outcomes: map[string]int64{},
-		Rule: "declared-list shape(8, incl. names repeated across Secrets and struct tags) × cache state(11, incl. a complete cache of empty-valued secrets; those with valid entries also with an expiry age configured) × per-secret failure script(8 each) × context(5) × service error style(4; a further block makes the failures refusals or not-found answers), each one NewStore execution under virtual time against the retry model; non-trivial = configurations in which at least one secret has to be fetched and at least one request fails"})
+		Rule: "declared-list shape(8, incl. names repeated across Secrets and struct tags) × cache state(11, incl. a complete cache of empty-valued secrets; those with valid entries also with an expiry age configured) × per-secret failure script(8 each) × context(5) × service error style(4; a further block makes the failures refusals or not-found answers, another makes every request take 6 s), each one NewStore execution under virtual time against the retry model; non-trivial = configurations in which at least one secret has to be fetched and at least one request fails"})
 	lists := []struct {
 		name    string
 		names   []string
@@ -478,6 +483,46 @@ func checkC10(t *testing.T, env *report.Env, rep *report.Report) {
 								rep.Violate(sec.Name, "construct/"+kind+": "+c.String(), c.String()+": "+msg, map[string]any{"config": c.String()})
 							}
 						}
+					}
+				}
+			}
+		}
+	}
+	// a slow service: every request takes 6 s, the first one for "a" fails; only the caller's context bounds
+	// how long start-up keeps trying
+	for _, l := range lists[:2] {
+		for _, ca := range []string{"none", "partial"} {
+			if ca == "partial" && len(l.names) < 2 {
+				continue
+			}
+			for _, cx := range []string{"none", "10s"} {
+				c := c10cfg{list: l.name, names: l.names, cache: ca, script: map[string]int{"a": 1}, ctx: cx, latency: 6 * time.Second}
+				if ca == "partial" {
+					// "a" comes from the cache; the slow, once-failing fetch is b's
+					c.script = map[string]int{"b": 1}
+				}
+				o := runC10(t, c)
+				sec.Evaluations++
+				sec.Nontrivial++
+				sec.Extra["slow_service_configurations"]++
+				bad := func(kind, msg string) {
+					rep.Violate(sec.Name, "construct/"+kind+": "+c.String(), c.String()+": "+msg, map[string]any{"config": c.String()})
+				}
+				// scripted failures are immediate, answers take 6 s each: everything is obtainable within 20 s; with a 10 s context either outcome is possible, but giving up is only allowed once that context has ended
+				switch cx {
+				case "none":
+					if o.err != nil {
+						bad("gave-up-early", fmt.Sprintf("NewStore gave up after %v (%v) although the caller's context is live for 60 s and every secret is obtainable within 20 s", o.elapsed, o.err))
+					}
+				case "10s":
+					if o.err == nil {
+						if o.elapsed > 16*time.Second {
+							bad("not-prompt", fmt.Sprintf("NewStore returned after %v; the context ended at 10 s", o.elapsed))
+						}
+					} else if o.elapsed < 10*time.Second {
+						bad("gave-up-early", fmt.Sprintf("NewStore gave up after %v (%v) while the caller's context was still live (it ends at 10 s)", o.elapsed, o.err))
+					} else if o.elapsed > 16*time.Second {
+						bad("not-prompt", fmt.Sprintf("NewStore gave up only after %v; the context ended at 10 s", o.elapsed))
 					}
 				}
 			}
